@@ -60,7 +60,11 @@ class Ctx(object):
             for key, (st, d, lim) in getattr(m, 'fn_status', {}).items():
                 short = '%s.%s' % (base, key)
                 if st == 'new':
-                    out[short] = 'not in the reference tree'
+                    last = key.split('.')[-1]
+                    if last.startswith('_') and not (last.startswith('__') and last.endswith('__')):
+                        # a new private helper is what a refactoring leaves behind; a new public or special method
+                        # changes the interface and is analysed like any other code
+                        out[short] = 'not in the reference tree'
                 elif st == 'differs' and d > lim:
                     out[short] = 'differs from its reference form in %d lines (limit %d)' % (d, lim)
         return out
